@@ -268,3 +268,44 @@ Definition open_prop_ok (i : open_in) (o : open_obs) : bool :=
 
 Definition open_nontrivial (i : open_in) (o : open_obs) : bool :=
   refused i || negb (supported i) || (2 <=? length (tokens (oi_mechs i)))%nat.
+
+(* ---- correspondence interface for arbitrary frame sequences on channel 0 ----
+   (the every-sequence theorems of Props/C09.v are about ch0_run; this family
+   runs Channel0.on_frame on the same sequences, conforming or not) *)
+Record ch0_in := { zi_cfg : hs_cfg; zi_frames : list in_frame }.
+Record ch0_obs := {
+  zo_state : cst; zo_out : list out_frame; zo_errs : list (option Z);
+  zo_blocked : bool; zo_cmax : Z; zo_fmax : Z
+}.
+
+Definition ch0_model (i : ch0_in) : ch0_obs :=
+  let s := ch0_run (zi_cfg i) (zi_frames i) in
+  {| zo_state := h_state s; zo_out := h_out s; zo_errs := h_errs s;
+     zo_blocked := h_blocked s; zo_cmax := h_cmax s; zo_fmax := h_fmax s |}.
+
+Definition ch0_obs_eqb (a b : ch0_obs) : bool :=
+  cst_eqb (zo_state a) (zo_state b) &&
+  list_eqb out_frame_eqb (zo_out a) (zo_out b) &&
+  list_eqb (option_eqb Z.eqb) (zo_errs a) (zo_errs b) &&
+  Bool.eqb (zo_blocked a) (zo_blocked b) &&
+  (zo_cmax a =? zo_cmax b) && (zo_fmax a =? zo_fmax b).
+
+(* the clauses of the property that make sense for any sequence: tune answers
+   within the limits and carrying the configured heartbeat, Open naming the
+   configured virtual host, no refusal code lost, open only after OpenOk *)
+Definition ch0_prop_ok (i : ch0_in) (o : ch0_obs) : bool :=
+  forallb (fun x => match x with
+                    | OTuneOk c f hb => (0 <? c) && (c <=? 65535) && (0 <? f) && (f <=? 131072)
+                                        && (hb =? c_heartbeat (zi_cfg i))
+                    | OOpen v => bytes_eqb v (c_vhost (zi_cfg i))
+                    | OStartOk _ _ => true
+                    end) (zo_out o) &&
+  forallb (fun f => match f with
+                    | IClose code => (code =? 200) || existsb (option_eqb Z.eqb (Some code)) (zo_errs o)
+                    | _ => true
+                    end) (zi_frames i) &&
+  (negb (cst_eqb (zo_state o) S_OPEN) ||
+   existsb (fun f => match f with IOpenOk => true | _ => false end) (zi_frames i)).
+
+Definition ch0_nontrivial (i : ch0_in) (o : ch0_obs) : bool :=
+  (2 <=? length (zi_frames i))%nat.
